@@ -406,8 +406,9 @@ impl<const N: usize> Session<N> {
         Self { client_session_id, server_session_id, packet_id, user }
     }
 
-    pub fn increase_packet_id(&mut self) {
-        self.packet_id = self.packet_id.wrapping_add(1);
+    pub fn increase_packet_id(&mut self) -> anyhow::Result<()> {
+        self.packet_id = self.packet_id.checked_add(1).ok_or_else(|| anyhow!("packet id exhausted, the session must end"))?;
+        Ok(())
     }
 }
 
